@@ -264,6 +264,97 @@ struct sbs { struct Storage storage; struct Storage* tiff; struct StoragePropert
  * through them fanned out over all functions: no verdict in 30 min) */
 static struct sbs the_sbs;
 char* verif_sbs_alloc(uint64_t n) { VASSERT(n == sizeof(struct sbs), "layout of SideBySideTiff changed"); return (char*)&the_sbs; }
+#ifdef SBS_FULL
+/* ---- the WHOLE composite is translated (set and start too); what remains outside is libstdc++'s
+ * std::filesystem, modelled here at the level the unit uses it:
+ *   path            = { std::string pathname; tagged pointer to the component list }, always handled
+ *                     as a single component (type tag _Filename), so generic_string() is the pathname
+ *   status(p)       = "." is a writable directory; the target folder exists as a directory, exists as
+ *                     a regular file, or does not exist (symbolic initial state); anything else: not found
+ *   create_directory= creates the folder, or fails by returning false, or throws (symbolic)
+ *   parent_path(), operator/= work on the pathname text (bounded to the small-string buffer)
+ * storage_properties_copy / _set_uri (C, decided by C13) are modelled as a struct copy / a reference. */
+extern char* verif_exn;
+struct fspath { struct str_mirror s; uintptr_t cmpts; };
+_Static_assert(sizeof(struct fspath) == 40, "layout of std::filesystem::path");
+static int folder_state; /* 0 absent, 1 directory, 2 regular file */
+static int n_mkdir;
+static void fs_throw(void) { static struct { void** vt; const char* m; } e; e.vt = &fake_vtable[2]; verif_exn = (char*)&e; }
+void _ZNSt10filesystem7__cxx114path5_ListC1Ev(char* self) { *(uintptr_t*)self = 0; }
+void _ZNSt10filesystem7__cxx114path5_ListC1ERKS2_(char* self, char* o) { *(uintptr_t*)self = *(uintptr_t*)o & 3; }
+void _ZNKSt10filesystem7__cxx114path5_List13_Impl_deleterclEPNS2_5_ImplE(char* self, char* p) { VASSERT(((uintptr_t)p & ~(uintptr_t)3) == 0, "path component list freed although the model never allocates one"); }
+char* _ZNKSt10filesystem7__cxx114path5_List5beginEv(char* self) { return 0; }
+char* _ZNKSt10filesystem7__cxx114path5_List3endEv(char* self) { return 0; }
+void _ZNSt10filesystem7__cxx114path14_M_split_cmptsEv(char* self) { ((struct fspath*)self)->cmpts = 3; /* _Type::_Filename: one component */ }
+static int
+path_is(const struct fspath* p, const char* lit, size_t n)
+{
+    if (p->s.len != n) return 0;
+    for (size_t i = 0; i < 15; ++i)
+        if (i < n && p->s.p[i] != lit[i]) return 0;
+    return 1;
+}
+uint64_t
+_ZNSt10filesystem6statusERKNS_7__cxx114pathE(char* p_)
+{
+    const struct fspath* p = (const struct fspath*)p_;
+    /* file_status { file_type (signed char): not_found -1, regular 1, directory 2; perms (unsigned) } */
+    if (path_is(p, ".", 1)) return ((uint64_t)0755 << 32) | 2;
+    if (path_is(p, "a", 1)) {
+        if (folder_state == 1) return ((uint64_t)0755 << 32) | 2;
+        if (folder_state == 2) return ((uint64_t)0644 << 32) | 1;
+    }
+    return ((uint64_t)0xFFFF << 32) | 0xFF; /* not_found, perms::unknown */
+}
+uint8_t
+_ZNSt10filesystem16create_directoryERKNS_7__cxx114pathE(char* p_)
+{
+    ++n_mkdir;
+#ifdef MKDIR_HOW
+    uint8_t how = MKDIR_HOW; /* fixed per harness instance */
+#else
+    uint8_t how = ND(uint8_t);
+    VASSUME(how < 3);
+#endif
+    if (how == 2) { fs_throw(); return 0; }
+    if (how == 1 || folder_state != 0) return 0;
+    folder_state = 1;
+    return 1;
+}
+void
+_ZNKSt10filesystem7__cxx114path11parent_pathEv(char* ret_, char* self_)
+{
+    struct fspath* r = (struct fspath*)ret_;
+    const struct fspath* p = (const struct fspath*)self_;
+    VASSERT(p->s.len <= 15, "harness bound: path longer than the small-string buffer");
+    size_t cut = 0;
+    for (size_t i = 0; i < 15; ++i)
+        if (i < p->s.len && p->s.p[i] == '/') cut = i;
+    r->s.p = r->s.u.buf;
+    for (size_t i = 0; i < 15; ++i)
+        if (i < cut) r->s.u.buf[i] = p->s.p[i];
+    r->s.u.buf[cut] = 0;
+    r->s.len = cut;
+    r->cmpts = 3;
+}
+char*
+_ZNSt10filesystem7__cxx114pathdVERKS1_(char* self_, char* o_)
+{
+    struct fspath* p = (struct fspath*)self_;
+    const struct fspath* o = (const struct fspath*)o_;
+    size_t n = p->s.len, add = o->s.len;
+    int sep = n > 0 && p->s.p[n - 1] != '/';
+    VASSERT(n + sep + add <= 15 && p->s.p == p->s.u.buf, "harness bound: joined path longer than the small-string buffer");
+    if (sep) p->s.u.buf[n++] = '/';
+    for (size_t i = 0; i < 15; ++i)
+        if (i < add) p->s.u.buf[n + i] = o->s.p[i];
+    p->s.len = n + add;
+    p->s.u.buf[n + add] = 0;
+    return self_;
+}
+int storage_properties_copy(struct StorageProperties* dst, const struct StorageProperties* src) { *dst = *src; return 1; }
+int storage_properties_set_uri(struct StorageProperties* p, const char* str, size_t n) { p->uri.str = (char*)str; p->uri.nbytes = n; p->uri.is_ref = 1; return 1; }
+#else
 uint32_t
 _ZN12_GLOBAL__N_121side_by_side_tiff_setEP7StoragePK17StorageProperties(char* self_, char* props_)
 {
@@ -295,6 +386,7 @@ _ZN12_GLOBAL__N_123side_by_side_tiff_startEP7Storage(char* self_)
     }
     return state;
 }
+#endif /* SBS_FULL */
 #endif
 
 union frame { struct VideoFrame v; uint8_t raw[sizeof(struct VideoFrame) + PXB]; };
@@ -409,6 +501,13 @@ main(void)
 #endif
     /* metadata present or not: fixed per harness instance (a symbolic choice makes the open/closed
      * state of the descriptor symbolic and with it the writer's error paths, incl. its recursion) */
+#ifdef SBS_FULL
+#ifdef FOLDER
+    folder_state = FOLDER; /* fixed per harness instance */
+#else
+    folder_state = ND(uint8_t); VASSUME(folder_state <= 2);
+#endif
+#endif
     if (SBS_META) { p.external_metadata_json.str = meta_json; p.external_metadata_json.nbytes = sizeof meta_json; p.external_metadata_json.is_ref = 1; }
 #endif
 #if MODE == 15
